@@ -38,6 +38,7 @@ type Gen struct {
 	RectTablesOnly bool // no column/row structural edits after a merge
 	merged         map[int]bool
 	NoJPGName      bool // image file names keep an extension the library registers
+	WellFormedMath bool // formulas are well-formed OMML fragments
 	ntables        int
 	nparas         int
 	nimages        int
@@ -150,6 +151,7 @@ func (g *Gen) one(d int) (sim.Op, bool) {
 	add(FTOC, 1, g.opTOC)
 	add(FProp, 1, g.opProp)
 	add(FRemove, 1, g.opRemove)
+	add(FMath, 1, g.opMath)
 	if len(cs) == 0 {
 		return sim.Op{K: "para", S: []sim.Str{g.str(g.Text())}}, true
 	}
@@ -471,6 +473,17 @@ func (g *Gen) opTOC() (sim.Op, bool) {
 func (g *Gen) opProp() (sim.Op, bool) {
 	r := g.R
 	return sim.Op{K: "prop", S: []sim.Str{g.str(r.Pick("title", "author", "subject", "keywords", "description", "category", "stats", "all")), g.str(g.Text())}}, true
+}
+
+// opMath adds a formula. WellFormedMath restricts the content to well-formed
+// OMML fragments (the documented use); otherwise arbitrary text is passed.
+func (g *Gen) opMath() (sim.Op, bool) {
+	r := g.R
+	if g.WellFormedMath {
+		g.tag++
+		return sim.Op{K: "math", S: []sim.Str{g.str(fmt.Sprintf("<m:r><m:t>x%d</m:t></m:r>", g.tag))}, I: []int{r.Intn(2)}}, true
+	}
+	return sim.Op{K: "math", S: []sim.Str{g.str(g.Text())}, I: []int{r.Intn(2)}}, true
 }
 
 func (g *Gen) opRemove() (sim.Op, bool) {
